@@ -30,7 +30,8 @@ GARBAGE = ["", " ", "<", "<math", "<math>", "</math>", "<math></math>", "<math/>
            "<math><mtable><mi>x</mi></mtable></math>", "<math><mtr><mtd><mi>x</mi></mtd></mtr></math>", "<math><mtd><mi>x</mi></mtd></math>",
            "<math><mmultiscripts/></math>", "<math><mmultiscripts><mi>x</mi><mprescripts/><mprescripts/></mmultiscripts></math>",
            "<math><none/></math>", "<math><mprescripts/></math>", "<math><mo></mo></math>", "<math><mn></mn><mn></mn></math>",
-           "<math><mi intent='(((('>x</mi></math>", "<math><mrow intent='f($a'><mi arg='a'>x</mi></mrow></math>", "<math><mi id=''>x</mi></math>",
+           "<math><mi intent='(((('>x</mi></math>", "<math><mrow intent='mi($a)($b)'><mi arg='a'>x</mi><mo>+</mo><mi arg='b'>y</mi></mrow></math>",
+           "<math><mrow intent='mtext($a)($b)($a)'><mi arg='a'>x</mi><mo>+</mo><mi arg='b'>y</mi></mrow></math>", "<math><mrow intent='f($a'><mi arg='a'>x</mi></mrow></math>", "<math><mi id=''>x</mi></math>",
            "<math><mi id='a'>x</mi><mi id='a'>y</mi></math>", "<math><mi data-maybe-chemistry='x'>H</mi></math>", "<math><mi data-changed='empty_content'/><mi>x</mi></math>",
            "<math><mi>x</mi><mi data-changed='empty_content'/><mi>y</mi></math>", "<math display='block' alttext='&lt;'><mi>x</mi></math>",
            "<math><semantics><annotation>x</annotation></semantics></math>", "<math><semantics/></math>", "<math><mtext>&#xF8FD;</mtext></math>",
